@@ -206,7 +206,13 @@ fn exec(op: &Op) -> String {
                     std::fs::create_dir_all(&p).unwrap();
                     let mut i = 1;
                     while i + 1 < parts.len() {
-                        std::fs::write(p.join(OsStr::from_bytes(parts[i])), parts[i + 1]).unwrap();
+                        let q = p.join(OsStr::from_bytes(parts[i]));
+                        if parts[i + 1] == b"\x01D" {
+                            // the entry exists but is a directory (reading it fails)
+                            std::fs::create_dir_all(&q).unwrap();
+                        } else {
+                            std::fs::write(q, parts[i + 1]).unwrap();
+                        }
                         i += 2;
                     }
                 }
@@ -216,7 +222,8 @@ fn exec(op: &Op) -> String {
                 Err(_) => return "open-err".into(),
             };
             let mut items: Vec<String> = vec![];
-            for it in db {
+            let mut db = db;
+            while let Some(it) = db.next() {
                 items.push(match it {
                     Ok(p) => format!(
                         "ok:{}:{}:{}:{}:{}",
@@ -236,6 +243,12 @@ fn exec(op: &Op) -> String {
                 });
             }
             items.sort();
+            // an exhausted iterator stays exhausted (and polling it again returns normally)
+            for _ in 0..2 {
+                if db.next().is_some() {
+                    items.push("item-after-end".into());
+                }
+            }
             let _ = std::fs::remove_dir_all("db");
             items.join(";")
         }
